@@ -356,8 +356,10 @@ fn main() {
         ($name:literal; ($U0:ty, $I0:ty) $(, ($U:ty, $I:ty))+) => {
             jobs.push(Job::new(concat!("equal_width/", $name), move |ctx| {
                 let shapes = vec![<$U0 as Int>::shape() $(, <$U as Int>::shape())+];
-                let wide = <$U0 as Int>::W >= 192;
-                ctx.run("ops", ctx.budget(if wide { QUICK / 2 } else { QUICK }, FACTOR), tuples(shapes), |c: &Tuple, obs: &mut Obs| {
+                let w = <$U0 as Int>::W;
+                // more than 256 digits of the narrowest digit type: few, expensive cases
+                let q = if w >= 2000 { QUICK / 12 } else if w >= 192 { QUICK / 2 } else { QUICK };
+                ctx.run("ops", ctx.budget(q, FACTOR), tuples(shapes), |c: &Tuple, obs: &mut Obs| {
                     let base = ops_vector::<$U0, $I0>(c);
                     obs.nt_if(c.0 .0.iter().any(|&b| b != 0) && c.1 .0.iter().any(|&b| b != 0));
                     $(
@@ -395,6 +397,9 @@ fn main() {
     group!("128"; (BUintD8<16>, BIntD8<16>), (BUintD16<8>, BIntD16<8>), (BUintD32<4>, BIntD32<4>), (BUint<2>, BInt<2>));
     group!("192"; (BUintD8<24>, BIntD8<24>), (BUintD16<12>, BIntD16<12>), (BUintD32<6>, BIntD32<6>), (BUint<3>, BInt<3>));
     group!("320"; (BUintD8<40>, BIntD8<40>), (BUintD16<20>, BIntD16<20>), (BUintD32<10>, BIntD32<10>), (BUint<5>, BInt<5>));
+    // digit counts above 256 (an index or digit offset narrowed to u8 shows only here)
+    group!("2080"; (BUintD8<260>, BIntD8<260>), (BUintD16<130>, BIntD16<130>), (BUintD32<65>, BIntD32<65>));
+    group!("4160"; (BUintD16<260>, BIntD16<260>), (BUintD32<130>, BIntD32<130>), (BUint<65>, BInt<65>));
 
     // (b) extension pairs: same digit type and different digit types, zero extension (U) and sign extension (I)
     macro_rules! ext {
@@ -427,7 +432,7 @@ fn main() {
     runner::main(
         Property {
             id: "C16",
-            rule: "(a) For each of the width groups {16, 32, 48, 64, 96, 128, 192, 320} (2-4 digit types each) one operand tuple (three W-bit patterns structured for the 8-bit and for the widest digit size, a shift/rotate amount, an exponent, a radix, a text / byte string, float bits) is loaded into every member and a table of ~280 operations (every overflow mode of add/sub/mul/div/rem, shifts, rotations, bit operations, comparison, pow, ilog, radix output, parsing of strings and digit slices, byte slices, all eight formatting traits with three flag specifications, casts to f32/f64/every primitive and from floats, operators with their profile-dependent panic outcome) is evaluated in each; results are normalised to strings ('Panicked' for a panic; the error kind of long invalid strings, which the property leaves open, to 'Err(any)') and must be identical across the group, and As casts between the members must preserve the pattern. Differential oracle, no reference model. (b) 18 (narrow, wide) pairs (same and different digit types, zero- and sign-extension): whenever the exact result is representable in the narrow type (decided by the reference integer), add/sub/mul/div/rem/pow/shl/cmp/decimal print/decimal parse on the extended operands equals the extension of the narrow result. (c) BITS, BYTES, MIN, MAX, ZERO, ONE..TEN, NEG_ONE..NEG_TEN for all 74 types and the aliases U128..I8192: enumerated completely. NON-TRIVIAL: (a) both main operands non-zero; (b) at least three operations had a representable exact result with non-zero operands; (c) every constant. distinct = distinct (profile, job, inputs) by 64-bit hash.",
+            rule: "(a) For each of the width groups {16, 32, 48, 64, 96, 128, 192, 320, 2080, 4160} (2-4 digit types each; the last two have more than 256 digits of the narrowest digit type and a twelfth of the budget) one operand tuple (three W-bit patterns structured for the 8-bit and for the widest digit size, a shift/rotate amount, an exponent, a radix, a text / byte string, float bits) is loaded into every member and a table of ~280 operations (every overflow mode of add/sub/mul/div/rem, shifts, rotations, bit operations, comparison, pow, ilog, radix output, parsing of strings and digit slices, byte slices, all eight formatting traits with three flag specifications, casts to f32/f64/every primitive and from floats, operators with their profile-dependent panic outcome) is evaluated in each; results are normalised to strings ('Panicked' for a panic; the error kind of long invalid strings, which the property leaves open, to 'Err(any)') and must be identical across the group, and As casts between the members must preserve the pattern. Differential oracle, no reference model. (b) 18 (narrow, wide) pairs (same and different digit types, zero- and sign-extension): whenever the exact result is representable in the narrow type (decided by the reference integer), add/sub/mul/div/rem/pow/shl/cmp/decimal print/decimal parse on the extended operands equals the extension of the narrow result. (c) BITS, BYTES, MIN, MAX, ZERO, ONE..TEN, NEG_ONE..NEG_TEN for all 74 types and the aliases U128..I8192: enumerated completely. NON-TRIVIAL: (a) both main operands non-zero; (b) at least three operations had a representable exact result with non-zero operands; (c) every constant. distinct = distinct (profile, job, inputs) by 64-bit hash.",
             assumptions: &[
                 "digits()/from_digits()/to_bits()/from_bits() are the trusted observation channel",
                 "(a) is purely differential: a defect common to all digit types is invisible here and is the business of C01-C15",
